@@ -161,9 +161,13 @@ def _urls(draw, tier):
     if draw(st.integers(0, 4)) == 0:
         s = dict(s, host=s["host"].rsplit(".", 1)[0] + "." + draw(st.sampled_from(["co.uk", "com.au", "x.kawasaki.jp", "blogspot.com", "unknowntld"])))
     url = _fix_edges(G.serialise(s))
-    wrap = draw(st.sampled_from([None, None, None, "http://r.example.com/?url=%s", "https://l.facebook.com/l.php?u=%s", "http://x.cdn.ampproject.org/c/s/%s"]))
+    wrap = draw(st.sampled_from([None, None, None, "http://r.example.com/?url=%s", "https://l.facebook.com/l.php?u=%s", "http://x.cdn.ampproject.org/c/s/%s",
+                                 "https://app.example.com/#/login?redirect=%s", "site.example.org/page#tab=2&u=%s", "archive.example.org/web/2020/RAW%s"]))
     if wrap:
-        url = wrap % (quote(url, safe="") if "ampproject" not in wrap else url.split("://", 1)[-1].lstrip("/"))
+        if "RAW" in wrap:   # scheme-less carrier with a raw '://' further on
+            url = wrap.replace("RAW%s", url if "://" in url else "http://" + url.lstrip("/"))
+        else:
+            url = wrap % (quote(url, safe="") if "ampproject" not in wrap else url.split("://", 1)[-1].lstrip("/"))
     url = draw(st.sampled_from(PADS)) + url + draw(st.sampled_from(PADS))
     if draw(st.integers(0, 5)) == 0:
         k = draw(st.integers(0, len(url)))
@@ -178,7 +182,8 @@ def _helpers_strategy(tier):
 
 def _nt(case):
     u = case.get("url", case.get("host", ""))
-    return case.pop("_changed", False) or u != u.strip() or any(ord(c) < 32 or 127 <= ord(c) <= 159 for c in u) or "url=" in u or "ampproject" in u or "?u=" in u
+    return case.pop("_changed", False) or u != u.strip() or any(ord(c) < 32 or 127 <= ord(c) <= 159 for c in u) or "url=" in u or "ampproject" in u or "?u=" in u \
+        or "redirect=" in u or "&u=" in u
 
 
 def _cl(case):
